@@ -305,7 +305,18 @@ def corpus():
         Union('WAny', [('W', 'W'), ('txt', 'string')]),
         Table('WU', [Field('k%d' % i, 'B100') for i in range(5)] + [Field('h0', 'B50')] + [Field('c%d' % i, 'ubyte') for i in range(64)] +
                     [Field('u', 'WAny'), Field('tail', 'ushort'), Field('name', 'string')]),
-        Table('WR', [Field('ws', '[W]'), Field('tag', 'int'), Field('ws2', '[W]'), Field('names', '[string]'), Field('names2', '[string]')]),
+        # pairs of table types with identical field positions and a last field of different width: vtables equal except for the table size,
+        # each pair in ONE bucket of flatcc's 64 bucket vtable cache when the fields are added in declaration order
+        Table('PA', [Field('a', 'ubyte'), Field('b', 'ubyte'), Field('c', 'uint'), Field('d', 'ushort')]),
+        Table('PB', [Field('a', 'ubyte'), Field('b', 'ubyte'), Field('c', 'uint'), Field('d', 'uint')]),
+        Table('PC', [Field('a', 'ushort'), Field('b', 'ushort'), Field('c', 'uint'), Field('d', 'ubyte')]),
+        Table('PD', [Field('a', 'ushort'), Field('b', 'ushort'), Field('c', 'uint'), Field('d', 'uint')]),
+        Table('PE', [Field('a', 'uint'), Field('b', 'uint'), Field('c', 'ulong'), Field('d', 'ubyte')]),
+        Table('PF', [Field('a', 'uint'), Field('b', 'uint'), Field('c', 'ulong'), Field('d', 'ushort')]),
+        Table('PG', [Field('a', 'ulong'), Field('b', 'uint'), Field('c', 'uint'), Field('d', 'ubyte')]),
+        Table('PH', [Field('a', 'ulong'), Field('b', 'uint'), Field('c', 'uint'), Field('d', 'ushort')]),
+        Table('WR', [Field('ws', '[W]'), Field('tag', 'int'), Field('ws2', '[W]'), Field('names', '[string]'), Field('names2', '[string]')] +
+                    [Field(n.lower(), '[%s]' % n) for n in ('PA', 'PB', 'PC', 'PD', 'PE', 'PF', 'PG', 'PH')]),
     ], 'WR'))
     return S
 
@@ -354,6 +365,50 @@ def wide_value(s, rng, count=130, vary_end=False):
     # ws / ws2 and names / names2 hold the same elements: built from ONE reference array (create_offset_vector called twice)
     return Node('table', 'WR', [(wr[0], Node('offvec', ws)), (wr[1], Node('bytes', struct.pack('<i', len(ws)))), (wr[2], Node('offvec', list(ws))),
                                 (wr[3], Node('offvec', names)), (wr[4], Node('offvec', list(names)))])
+
+
+def many_nested_value(s, rng, levels):
+    """root of schema bnest with about 4 * levels nested buffers (34..80 and more in ONE build): at every level an Outer with a plain child
+    Inner {v, s}, nt = nested Inner {v, s, deep = nested Outer of the next level}, nt2 = nested Inner {v, s}, and sometimes ns1 = nested
+    struct N1; every Inner {v, s} and every Outer has the same field set (same vtable bytes), so buffers with nest ids n and n + 34, n + 64 ..
+    ask the vtable cache for vtables it already holds for the parent / a sibling"""
+    inner_f = {f.name: f for f in s.tables['Inner'].fields}
+    outer_f = {f.name: f for f in s.tables['Outer'].fields}
+
+    def nopts(): return {'with_size': False, 'ident': rng.choice([None, None, b'NSTD']), 'block_align': 0, 'style': 'se',
+                         'embed_align': 0, 'embed_block_align': 0, 'embed_with_size': False}
+
+    def inner(deep=None):
+        b = [(inner_f['v'], Node('bytes', struct.pack('<q', rng.randrange(1, 1 << 62)))), (inner_f['s'], Node('str', b'i%d' % rng.randrange(1000)))]
+        if deep is not None: b.append((inner_f['deep'], Node('nested', 'Outer', deep, nopts())))
+        return Node('table', 'Inner', b)
+
+    def outer(level):
+        b = [(outer_f['id'], Node('bytes', struct.pack('<i', 1000 + level))),
+             (outer_f['child'], inner()),                     # a plain table of the enclosing buffer with the shape of the nested roots, built first
+             (outer_f['nt'], Node('nested', 'Inner', inner(outer(level + 1) if level + 1 < levels else None), nopts())),
+             (outer_f['nt2'], Node('nested', 'Inner', inner(), nopts()))]
+        if level % 3 == 1: b.append((outer_f['ns1'], Node('nested', 'N1', Node('bytes', bytes([rng.randrange(256), rng.randrange(256)]), 'N1'), nopts())))
+        b.append((outer_f['name'], Node('str', b'o%d' % level)))
+        return Node('table', 'Outer', b)
+    return outer(0)
+
+
+def pair_value(s, rng):
+    """root of schema bwide: the table types PA..PH (pairs PA/PB, PC/PD, PE/PF, PG/PH: same field positions, last field of another width),
+    every field present and non-zero, 1..2 instances per type, the types in random order (narrower first / wider first)"""
+    sizes = {'ubyte': 1, 'ushort': 2, 'uint': 4, 'ulong': 8}
+    wr = {f.name: f for f in s.tables['WR'].fields}
+    names = ['PA', 'PB', 'PC', 'PD', 'PE', 'PF', 'PG', 'PH']
+    rng.shuffle(names)
+    fields = []
+    for n in names:
+        if rng.random() < 0.15: continue
+        inst = [Node('table', n, [(f, Node('bytes', bytes(rng.randrange(1, 256) for _ in range(sizes[f.type])))) for f in s.tables[n].fields])
+                for _ in range(rng.choice([1, 1, 2]))]
+        fields.append((wr[n.lower()], Node('offvec', inst)))
+    fields.append((wr['tag'], Node('bytes', struct.pack('<i', rng.randrange(1, 1 << 31)))))
+    return Node('table', 'WR', fields)
 
 
 # ----------------------------------------------------------------------------------------- value trees
